@@ -137,6 +137,7 @@ CONSTANTS
     Mode = "%(mode)s"
     UpgradeSend = "drop"
     UpgradeRecheck = TRUE
+    UpgraderSem = "drop"
     MaxCalls = 1
     Kinds = {"auth", "update", "add", "remove", "setadmin", "list"}
     InitFiles <- MCInit1
@@ -167,6 +168,8 @@ def validate(ctx, events, mode, name, default=2, policyok=("p1", "p2", "p3")):
     for e in events:   # TLC's Json module wants uniform records; nested maps only where read
         e.pop("err", None)
         e.pop("policyok", None)
+        e.pop("via", None)
+        e.setdefault("admknown", True)
         e.pop("seq", None)
         e.pop("ts", None)
         e.pop("checkerr", None)
@@ -232,6 +235,59 @@ def classify_rejection(events, res, default_prop):
 
 
 # ----------------------------------------------------------------------------- simulated behaviours
+AUTH_VIAS = ["api", "sasl", "http", "basic", "ldap"]
+WRITE_VIAS = ["api", "http"]
+
+
+def with_frontends(sc, seed):
+    """Route the scenario's client calls through the real frontends (seeded choice per call)."""
+    import random
+    rng = random.Random(seed)
+    sc["frontends"] = True
+    sc["http_admin"] = ["u2", "p2"]
+    for st in sc["steps"]:
+        if st.get("t") == "send":
+            if st["k"] == "auth":
+                st["via"] = rng.choice(AUTH_VIAS) if st["u"] and PASSWORDS.get(st["p"], "") else "api"
+            else:
+                st["via"] = rng.choice(WRITE_VIAS)
+        elif st.get("t") == "load":
+            st["vias"] = AUTH_VIAS
+    sc["steps"] = [{"t": "token"}] + sc["steps"]
+    return sc
+
+
+def crosstalk_scenarios():
+    """Two overlapping logins for one account with different passwords / a write acknowledged only after it
+    was executed - through every frontend, with the dispatcher held so that the requests really overlap."""
+    files = {"u1": {"present": True, "pw": "p1", "set": 2, "adm": False},
+             "u2": {"present": True, "pw": "p2", "set": 2, "adm": True}}
+    out = []
+    for via in ("sasl", "http", "basic", "ldap", "api"):
+        for order in (("p1", "p2"), ("p2", "p1")):
+            steps = [{"t": "token"},
+                     {"t": "send", "c": "a", "k": "auth", "u": "u1", "p": order[0], "a": False, "via": via},
+                     {"t": "send", "c": "b", "k": "auth", "u": "u1", "p": order[1], "a": False, "via": via},
+                     {"t": "send", "c": "d", "k": "auth", "u": "u2", "p": order[0], "a": False, "via": via},
+                     {"t": "recv"}, {"t": "recv"}, {"t": "recv"}, {"t": "free"}]
+            out.append({"name": "crosstalk-%s-%s" % (via, order[0]), "mode": "", "default": 2, "files": files,
+                        "passwords": PASSWORDS, "steps": steps, "gated": True, "seed": 1, "frontends": True,
+                        "http_admin": ["u2", "p2"]})
+    for k, u, p, a in (("remove", "u1", "", False), ("update", "u1", "p3", False), ("setadmin", "u1", "", True),
+                       ("add", "u3", "p3", False)):
+        steps = [{"t": "token"},
+                 {"t": "send", "c": "w", "k": k, "u": u, "p": p, "a": a, "via": "http"},
+                 {"t": "sleep", "n": 30},
+                 {"t": "send", "c": "r", "k": "auth", "u": u, "p": "p1", "a": False, "via": "sasl"},
+                 {"t": "sleep", "n": 30},
+                 {"t": "recv"}, {"t": "recv"}, {"t": "free"}]
+        f3 = dict(files)
+        f3["u3"] = {"present": False, "pw": "", "set": 0, "adm": False}
+        out.append({"name": "ack-after-exec-%s" % k, "mode": "", "default": 2, "files": f3, "passwords": PASSWORDS,
+                    "steps": steps, "gated": True, "seed": 1, "frontends": True, "http_admin": ["u2", "p2"]})
+    return out
+
+
 def simulated_scenarios(ctx, n, mode="local", cfg="MC_SimAgent.cfg"):
     """Behaviours of the code variant generated by `tlc -simulate` on SimAgent (history variable of
     steering steps: sends, receives with a single ready channel, upgrade sends)."""
@@ -258,7 +314,7 @@ def simulated_scenarios(ctx, n, mode="local", cfg="MC_SimAgent.cfg"):
 
 
 # ----------------------------------------------------------------------------- grouped validation + post checks
-MODE_NAME = {"local": "local", "": "off"}
+MODE_NAME = {"local": "local", "": "off"}   # anything else (http://..., "stalled") is remote
 
 
 def judge(ctx, scenarios, results, events, name, default_prop):
